@@ -281,6 +281,13 @@ def err_kind(e):
     return "err:other:" + type(e).__name__
 
 
+def err_class(x):
+    """'err:value' / 'raise:…' / 'heur-raised:…' -> 'raised'; anything else unchanged (the properties say THAT a call raises, not what)"""
+    if isinstance(x, str) and (x.startswith("err") or x.startswith("raise") or x.startswith("heur-raised") or x.startswith("raised")):
+        return "raised"
+    return x
+
+
 # ---------------------------------------------------------------- known findings
 
 def load_known():
